@@ -368,6 +368,10 @@ func c31Check(scn *c31Scn) func(x *vsched.Exec) error {
 			if !validRoute[r] {
 				return vsched.Violatef("C31:push-to-route-that-presence-did-not-return", "%s: route %+v is not an exact route resolved for a recipient of the plan", c31Describe(c), r)
 			}
+			key := fmt.Sprintf("%d/%s/%d", c.msg, r.UID, r.SessionID)
+			if final[key] {
+				return vsched.Violatef("C31:route-pushed-again-after-its-final-answer", "%s: route %s/%d already got a non-retryable answer for this plan (a retry must target only the exact failed routes)", c31Describe(c), r.UID, r.SessionID)
+			}
 			k := sc{r.SessionID, c.chanID}
 			if c.seq < lastSeq[k] {
 				return vsched.Violatef("C31:channel-sequence-pushed-out-of-order", "%s: session %d of channel %s was already pushed sequence %d", c31Describe(c), r.SessionID, c.chanID, lastSeq[k])
@@ -378,10 +382,6 @@ func c31Check(scn *c31Scn) func(x *vsched.Exec) error {
 					return vsched.Violatef("C31:channel-sequence-delivered-twice-or-backwards", "%s: session %d of channel %s already accepted sequence %d", c31Describe(c), r.SessionID, c.chanID, lastOK[k])
 				}
 				lastOK[k] = c.seq
-			}
-			key := fmt.Sprintf("%d/%s/%d", c.msg, r.UID, r.SessionID)
-			if final[key] {
-				return vsched.Violatef("C31:route-pushed-again-after-its-final-answer", "%s: route %s/%d already got a non-retryable answer for this plan (a retry must target only the exact failed routes)", c31Describe(c), r.UID, r.SessionID)
 			}
 			tries[key]++
 			if d != c31Retry {
@@ -502,9 +502,9 @@ func c31Scenarios(thorough bool) []*c31Scn {
 	b21, b22 := c31Route("u1", c31NodeB, 21), c31Route("u2", c31NodeB, 22)
 	stale := c31Route("u3", c31NodeA, 99) // presence still lists a session the owner no longer has
 	scns := []*c31Scn{
-		{name: "local-two-sessions-stop", lifecycle: "stop", targets: [][]string{{"u1", "u2"}, {"u4"}},
+		{name: "local-two-sessions-stop", lifecycle: "stop", targets: [][]string{{"u1", "u2", "u4"}, {"u4"}},
 			routes: map[string][]onlinedelivery.Route{"u1": {a11}, "u2": {a12}}, batch: 8, ownerConc: 1,
-			note: "u1,u2 online on the local owner, u4 offline; Stop at any point"},
+			note: "u1,u2 online on the local owner, u4 offline and listed under two authority targets (one de-duplicated offline report); Stop at any point"},
 		{name: "local-retry-narrowing", lifecycle: "", targets: [][]string{{"u1", "u2", "u3"}},
 			routes: map[string][]onlinedelivery.Route{"u1": {a11}, "u2": {a12}, "u3": {stale}},
 			script: map[uint64][]c31Disp{11: {c31Retry, c31OK}, 99: {c31Drop}}, batch: 8, ownerConc: 1,
